@@ -192,6 +192,12 @@ def handleMk (st : St) (k : Nat) (kindFull : String) (args : List String) : St Ã
       let bits := bitsFrom (nat! len) (ps.map nat!)
       mkResult st k (do let b â† BV.fromBools bits; pure (.bv (variant == "mut") b bits))
     | _ => (st, "bad-op")
+  | "bvzpos" =>
+    match args with
+    | len :: zs =>
+      let bits := (bitsFrom (nat! len) (zs.map nat!)).map (fun b => !b)
+      mkResult st k (do let b â† BV.fromBools bits; pure (.bv false b bits))
+    | _ => (st, "bad-op")
   | "bvpos" =>
     let ps := args.map nat!
     let len := ps.foldl (fun m p => max m (p + 1)) 0
